@@ -115,7 +115,25 @@ def scenarios(draw):
         st.builds(lambda e: {'op': 'diffbase', 'essence': e}, JSONV.filter(lambda v: isinstance(v, dict))),
         st.builds(lambda v: {'op': 'user', 'value': v}, st.sampled_from(['1', '2', ''])),
     )
-    return {'cfg': draw(configs()), 'body': draw(bodies()), 'ids': ids, 'steps': draw(st.lists(step, min_size=1, max_size=8))}
+    steps = draw(st.lists(step, min_size=1, max_size=8))
+    if n >= 2 and draw(st.integers(0, 3)) == 0:
+        # the shape of a closing handling cycle: some handlers' records are on the object already, another handler starts and
+        # finishes within the final cycle (stored and purged in the same patch), and everything is purged in one patch
+        persisted = draw(st.lists(st.integers(0, n - 1), min_size=1, max_size=n - 1, unique=True))
+        fresh = [i for i in range(n) if i not in persisted]
+        steps = [{'op': 'store', 'id': i, 'record': draw(RECORDS)} for i in persisted]
+        final = [{'op': 'purge', 'id': i} for i in persisted]
+        for j in draw(st.lists(st.sampled_from(fresh), min_size=1, max_size=len(fresh), unique=True)):
+            k = draw(st.integers(0, len(final)))
+            final[k:k] = [{'op': 'store', 'id': j, 'record': draw(RECORDS)}, {'op': 'purge', 'id': j}]
+        if draw(st.booleans()):
+            final.append({'op': 'diffbase', 'essence': draw(JSONV.filter(lambda v: isinstance(v, dict)))})
+        steps += [dict(sp, join=bool(i)) for i, sp in enumerate(final)]
+        return {'cfg': draw(configs()), 'body': draw(bodies()), 'ids': ids, 'steps': steps, 'shape': 'closing-cycle'}
+    if draw(st.booleans()):
+        # as a handling cycle does it: several operations accumulate in one patch before it is applied
+        steps = [dict(sp, join=True) if i and draw(st.integers(0, 2)) else sp for i, sp in enumerate(steps)]
+    return {'cfg': draw(configs()), 'body': draw(bodies()), 'ids': ids, 'steps': steps}
 
 
 # ------------------------------------------------------------------------------------------ helpers
@@ -197,11 +215,22 @@ def run_case(sc):
 
     annotation_based = cfg['progress']['kind'] in ('annotations', 'smart', 'multi')
     ours = set()
-    for n, step in enumerate(sc['steps']):
-        kbody = kbodies.Body(copy.deepcopy(body))
-        patch = patches.Patch()
-        before_foreign = foreign_view(body)
+    steps = sc['steps']
+    batch_has_user = False
+    for n, step in enumerate(steps):
+        # one handling cycle accumulates several storage operations in one patch, all computed against the same body:
+        # a step marked 'join' goes into the patch of the previous step; the patch is applied and judged when the batch ends
+        joined = bool(step.get('join')) and n > 0
+        if not joined:
+            kbody = kbodies.Body(copy.deepcopy(body))
+            patch = patches.Patch()
+            before_foreign = foreign_view(body)
+            batch_has_user = False
+        else:
+            res.label('several-operations-in-one-patch')
         op = step['op']
+        batch_has_user = batch_has_user or op == 'user'
+        keys_before = set((patch.get('metadata') or {}).get('annotations') or {})
         try:
             if op == 'store':
                 hid = ids[step['id']]
@@ -220,17 +249,17 @@ def run_case(sc):
         except Exception as e:
             res.fail('C16/raises', f'step {n} {step} raised {type(e).__name__}: {e}')
             return res
+        fresh = {'metadata': {'annotations': {k: v for k, v in ((patch.get('metadata') or {}).get('annotations') or {}).items() if k not in keys_before}}}
         if op in ('store', 'purge'):
-            ours.update(k for k in ((patch.get('metadata') or {}).get('annotations') or {}) if not k.endswith('/kopf-managed'))
-            for key, why in validate_names(patch, cfg['prefix'], res, op):
+            ours.update(k for k in fresh['metadata']['annotations'] if not k.endswith('/kopf-managed'))
+            for key, why in validate_names(fresh, cfg['prefix'], res, op):
                 if is_k(hid, key):
                     res.known.append({'id': FINDING_K, 'msg': f'id {hid!r} -> annotation {key!r}: {why}'})
                 else:
                     res.fail('C16/invalid-annotation-name', f'id {hid!r} with prefix {cfg["prefix"]!r} (v1={cfg["v1"]}) -> {key!r}: {why}')
         else:
-            for key, why in validate_names(patch, cfg['prefix'], res, op):
+            for key, why in validate_names(fresh, cfg['prefix'], res, op):
                 res.fail('C16/invalid-annotation-name', f'{op} with prefix {cfg["prefix"]!r} -> {key!r}: {why}')
-        body = apply_patch(body, patch)
         # the model
         if op == 'store':
             verbose = cfg['progress'].get('verbose') and cfg['progress']['kind'] == 'annotations'
@@ -245,6 +274,9 @@ def run_case(sc):
                     model.pop(other, None)
         elif op == 'diffbase':
             model_essence = step['essence']
+        if n + 1 < len(steps) and steps[n + 1].get('join'):
+            continue          # the batch goes on
+        body = apply_patch(body, patch)
         # compare: every id reads back what the model says; nothing foreign was touched
         kb = kbodies.Body(copy.deepcopy(body))
         for h in ids:
@@ -274,7 +306,7 @@ def run_case(sc):
             if got != model_essence:
                 res.fail('C16/diffbase-round-trip', f'after step {n}: last-handled reads {got!r}, stored {model_essence!r}')
         after_foreign = foreign_view(body)
-        if op != 'user' and after_foreign != before_foreign:
+        if not batch_has_user and after_foreign != before_foreign:
             res.fail('C16/foreign-data-touched', f'step {n} {step["op"]} changed foreign data: {before_foreign} -> {after_foreign}')
 
     # purge restores: purging everything leaves no key of ours
@@ -316,6 +348,8 @@ def run_case(sc):
         res.label('replicaset-of-deployment')
     if any(len(h) > 63 for h in ids):
         res.label('id>63')
+    if sc.get('shape'):
+        res.label('shape:' + sc['shape'])
     if res.nontrivial:
         res.label('nontrivial')
     res.summary = {'final_annotations': sorted((body['metadata'].get('annotations') or {}))[:8]}
